@@ -172,6 +172,7 @@ type TFact struct {
 
 type absint struct {
 	diffBusy   bool
+	nnBusy     map[*ssa.Function]bool
 	linBusy    bool
 	edgeCtx    map[ssa.Instruction][]TFact
 	phiProof   map[*ssa.Phi]bool
@@ -1665,6 +1666,29 @@ func (a *absint) definitelyNonNil(v ssa.Value) bool {
 			switch cal.String() {
 			case "errors.New", "fmt.Errorf":
 				return true
+			}
+			// a constructor of the module: every return yields a fresh allocation
+			if a.w.IsMod[cal] && len(cal.Blocks) > 0 && cal.Signature.Results().Len() >= 1 && !a.nnBusy[cal] {
+				if a.nnBusy == nil {
+					a.nnBusy = map[*ssa.Function]bool{}
+				}
+				a.nnBusy[cal] = true
+				all := true
+				n := 0
+				for _, r := range returnsOf(cal) {
+					n++
+					if len(r.Results) == 0 || !a.definitelyNonNil(r.Results[0]) {
+						all = false
+					}
+				}
+				delete(a.nnBusy, cal)
+				return all && n > 0
+			}
+		}
+	case *ssa.Extract:
+		if x.Index == 0 {
+			if c, ok := x.Tuple.(*ssa.Call); ok && c.Call.StaticCallee() != nil && a.w.IsMod[c.Call.StaticCallee()] {
+				return a.definitelyNonNil(c) // result #0 of a constructor returning (value, error)? only when every return is non-nil
 			}
 		}
 	}
